@@ -58,7 +58,7 @@ def _nest(rng, level, st):
     if r < 0.72: return 'setcs %s%sclone /vobj' % (inner, SEPS[level])
     if r < 0.78: return 'setcs %s%sload /lobj' % (inner, SEPS[level])
     # applies made by efuns: the hook scripts were installed by the setup commands
-    return rng.choice(('present me', 'move a b', 'move b me', 'say hello', 'cmd x', 'as b cmd x', 'as b cmd x', 'dest c', 'dest a', 'parse', 'parse'))
+    return rng.choice(('present me', 'move a b', 'move b me', 'say hello', 'cmd x', 'as b cmd x', 'as b cmd x', 'dest c', 'dest a', 'parse', 'parse', 'cmd y', 'as b cmd y', 'rmy'))
 
 
 def gen(rng, tier, i):
@@ -83,14 +83,27 @@ def gen(rng, tier, i):
     cmd('name u0;clone /vobj a;clone /vobj b;clone /vobj c;move a me;move b me;move c a;as b living')
     # hook scripts (each is itself a small nest, stored one level down)
     for ob in ('a', 'b', 'c', 'me'):
-        for hk in (('id', 'init', 'mod', 'catch_tell', 'pid') + (('x',) if ob == 'b' else ()) if ob != 'me' else ('x',)):
+        for hk in (('id', 'init', 'mod', 'catch_tell', 'pid') + (('x', 'y') if ob == 'b' else ()) if ob != 'me' else ('x', 'y')):
             if rng.random() < 0.5:
                 cmd('sc %s %s %s' % (ob, hk, ','.join(_nest(rng, 1, st) for _ in range(rng.randint(1, 2)))))
+    forced = None
+    if rng.random() < 0.3:
+        # a verb function that declines after removing its own action, with a command inside it that fails under a catch: the
+        # driver's note "an action was removed" has to survive the error in the inner command
+        who = rng.choice(('me', 'b')); st['catch'] += 1; st['leaf'] += 1
+        kindb = rng.choice(('err', 'typeerr', 'throw'))
+        # (other actions removed or objects destructed before: the driver's pool of free sentences is not empty then)
+        pre = rng.choice(('rmy,', 'rmy,', 'rmx,rmy,', 'dest c,rmy,', 'move b me,' if who == 'b' else 'rmx,rmy,'))
+        inner = 'cmd do bomb %d %s' % (st['leaf'], kindb) if (who == 'me' and ('rmx' in pre or rng.random() < 0.3)) else 'cmd x'
+        cmd('sc %s y %scatch %d %s%s' % (who, pre, st['catch'], inner, rng.choice(('', ',rec after%d' % st['leaf']))))
+        cmd('sc %s x bomb %d %s' % (who, st['leaf'], kindb))
+        forced = 'cmd y' if who == 'me' else 'as b cmd y'
     # the fixed probe evaluation, once before anything has failed
     cmd('probe', 1)
     if kind == 'cmd':
         ops = [_nest(rng, 0, st) for _ in range(rng.randint(1, 3))]
         if rng.random() < 0.3: ops.insert(rng.randint(0, len(ops)), _nested_efun(rng, 0, st))
+        if forced: ops.insert(rng.randint(0, len(ops)), forced)
         j = cmd(';'.join(ops))
     elif kind == 'edwrite':
         # the editor's write callback runs through safe_apply() with two arguments; the fault lands inside it
